@@ -166,7 +166,58 @@ class Gen:
             self.dirseq(tasks, files, dirs, cid)
         if r.random() < 0.2:
             self.dircopy(tasks, files, dirs, cid)
+        if r.random() < 0.3:
+            self.chain(tasks, files, cid)
         return {'files': files, 'dirs': dirs, 'tasks': tasks}
+
+    def chain(self, tasks, files, cid):
+        """dependent directives in one input list: a file is staged (TARBALL / TRANSFER / COPY) and later directives
+        of the same list LINK / COPY / MOVE the staged file on (also: a copy of the copy)"""
+        r = self.r
+        self.k += 1
+        k = self.k
+        if r.random() < 0.6:
+            ti = len(tasks)
+            tasks.append({'in': [], 'out': [], 'outcome': r.choice(['DONE', 'DONE', 'FAILED']), 'soe': False,
+                          'exec': [], 'bulk': tasks[-1]['bulk'] + (1 if r.random() < 0.3 else 0)})
+        else:
+            ti = r.randrange(len(tasks))
+        t, uid = tasks[ti], 't%d' % ti
+        root = r.choice(['Tarball', 'Tarball', 'Tarball', 'Transfer', 'Copy'])
+        if root == 'Copy':
+            sb, sname = r.choice(['pilot', 'session']), 'cfg%d.src' % k
+        else:
+            sb, sname = 'client', 'cfg%d.src' % k
+        files.append([sb, sname, next(cid)])
+        staged = r.choice(['in/cfg%d.dat', 'cfg%d.dat', 'a/b/cfg%d.dat']) % k
+        src = self.loc(sb, sname, uid, 'client' if root != 'Copy' else 'none')
+        tgt = self.loc('task', staged, uid, 'task')
+        lst = t['in']
+        d = {'source': src, 'target': tgt, 'action': root}
+        lst.append(self.short(src, tgt) if root == 'Transfer' and r.random() < 0.5 else d)
+        if root == 'Tarball' and r.random() < 0.4:                      # a second member of the same tarball
+            files.append(['client', 'more%d.src' % k, next(cid)])
+            lst.append({'source': self.loc('client', 'more%d.src' % k, uid, 'client'),
+                        'target': self.loc('task', 'in/more%d.dat' % k, uid, 'task'), 'action': 'Tarball'})
+        cur = staged
+        for n in range(r.choice([1, 1, 2, 3])):
+            a = r.choice(['Link', 'Copy', 'Copy', 'Move'])
+            q = r.random()
+            if q < 0.5:
+                nsb, nrel = 'task', 'use%d_%d.dat' % (k, n)
+            elif q < 0.8:
+                nsb, nrel = 'pilot', 'shared%d/cfg_%d.dat' % (k, n)
+            else:
+                nsb, nrel = r.choice(['session', 'resource']), 'keep%d_%d.dat' % (k, n)
+            d = {'source': self.loc('task', cur, uid, 'task'), 'target': self.loc(nsb, nrel, uid, 'task'), 'action': a}
+            if r.random() < 0.12:
+                lst.insert(max(0, len(lst) - 1), d)                       # out of order: uses the file before it is staged
+            else:
+                lst.append(d)
+            if nsb == 'task' and (a == 'Move' or r.random() < 0.4):
+                cur = nrel                                                # go on from the new file
+            elif a == 'Move':
+                break
 
     def dirseq(self, tasks, files, dirs, cid):
         """stage into a directory, make the directory disappear (a MOVE directive whose source is the directory,
@@ -546,7 +597,8 @@ class C11(Prop):
                 return any(isinstance(d, dict) and d.get('action') == 'Tarball' and 'target' in d
                            and not (d['target'] or '').strip() for d in t['in'])
             failed = [t for t, o in zip(case['tasks'], obs['tasks'])
-                      if o['states'] and o['states'][-1] != t['outcome']]
+                      if o['states'] and (o['states'][-1] != t['outcome']
+                                          or 'AGENT_SCHEDULING_PENDING' not in o['states'])]
             if failed and all(empty_tar(t) for t in failed):
                 return 'only_that_task_fails:agent_staging_input:tarball-with-empty-target'
         return '%s:staging' % clause
